@@ -6,12 +6,16 @@ import (
 	"verif/harness/hx"
 )
 
-// TestFamily writes the trace of the `handshake` scenario family.
+// TestFamily writes the trace of the `handshake` scenario family.  Version-function records and
+// two-chain histories are interleaved so that the (expensive) histories spread over the Coq shards.
 func TestFamily(t *testing.T) {
 	r := hx.NewRng("handshake")
 	o := hx.NewOut()
 	defer o.Close()
-	famVersions(r, o)
-	famHistories(t, r, o)
+	nh := hx.N(9, 150)
+	for part := 0; part < 4; part++ {
+		famVersions(r, o, part)
+		famHistories(t, r, o, nh)
+	}
 	t.Logf("records=%d", o.Count())
 }
